@@ -268,6 +268,22 @@ fn fndef_json<'tcx>(
             let _ = write!(out, ",\"tr\":{}", js(&path(tcx, tr)));
             if let Some(self_ty) = args.types().next() {
                 let _ = write!(out, ",\"self\":{}", js(&tystr(self_ty)));
+                let mut st = self_ty;
+                while let ty::Ref(_, inner, _) = st.kind() {
+                    st = *inner;
+                }
+                match st.kind() {
+                    ty::Closure(cd, _) | ty::Coroutine(cd, _) | ty::CoroutineClosure(cd, _) => {
+                        let _ = write!(out, ",\"self_closure\":{}", js(&path(tcx, *cd)));
+                    }
+                    ty::Adt(adt, _) => {
+                        let _ = write!(out, ",\"self_adt\":{}", js(&path(tcx, adt.did())));
+                    }
+                    ty::Dynamic(..) => {
+                        let _ = write!(out, ",\"self_dyn\":true");
+                    }
+                    _ => {}
+                }
             }
         } else if let Some(imp) = ai.impl_container(tcx) {
             let _ = imp;
@@ -278,9 +294,7 @@ fn fndef_json<'tcx>(
     if !args.has_escaping_bound_vars() {
         if let Ok(Some(inst)) = ty::Instance::try_resolve(tcx, te, d, args) {
             let rd = inst.def_id();
-            if rd != d {
-                let _ = write!(out, ",\"res\":{}", js(&path(tcx, rd)));
-            }
+            let _ = write!(out, ",\"res\":{}", js(&path(tcx, rd)));
             if let ty::InstanceKind::Item(_) = inst.def {
             } else {
                 let _ = write!(out, ",\"ik\":{}", js(&format!("{:?}", inst.def).chars().take(40).collect::<String>()));
